@@ -151,6 +151,8 @@ def handle (line : String) : String :=
                 " af=" ++ showSets buf (fun o => (lensAt base buf r o).filter (fun L => fullwordOk false buf o L)) else ""
             let wf := if fw && has 'w' then
                 " wf=" ++ showSets buf (fun o => (lensAt wideFl buf r o).filter (fun L => fullwordOk true buf o L)) else ""
-            id ++ " S" ++ a ++ w ++ af ++ wf
+            let wn := if fw && has 'w' then
+                " wn=" ++ showSets buf (fun o => (lensAt wideFl buf r o).filter (fun L => fullwordOk false buf o L)) else ""
+            id ++ " S" ++ a ++ w ++ af ++ wf ++ wn
 
 end Driver.Re
